@@ -565,7 +565,8 @@ def check(res, tier, replay=None):
                 if im["rc1"] == 0 and im["rcc"] == 0 and not is_sorted(oevs):
                     viol("oracle:check-mode", "-c passes on an unsorted stream")
         # ---- extra passes on the cases the first run sorted successfully with at least one plan executed
-        if not replay:
+        rtext = open(replay).read() if replay else ""
+        if True:     # also when replaying: the extra passes run on the replayed cases
             sortable = [i for i in range(len(cases)) if impl[i]["rc1"] == 0 and impl[i]["obs1"][8:] != cases[i][1]]
             pick = sortable[: (60 if tier == "quick" else 600)]
             shim = build_shim()
@@ -585,10 +586,12 @@ def check(res, tier, replay=None):
                                                       f"# stream body with short writes: {hx(data[8:])}\n# with full writes: {hx(impl[i]['obs1'][8:])}") or found
                 else:
                     prep.problems.append("shortpwrite shim does not build")
-                # (c) file offsets beyond 4 GiB
-                probs, tail_at, err = run_big_offset(prep.bdir, os.path.join(d, "big"))
-                res.case("big-offset stream")
-                res.dist("pass:offset-beyond-4GiB")
+                # (c) file offsets beyond 4 GiB (when replaying: only if the replay file is about it)
+                probs, tail_at, err = ([], 0, "")
+                if not replay or "offset-beyond-4GiB" in rtext:
+                    probs, tail_at, err = run_big_offset(prep.bdir, os.path.join(d, "big"))
+                    res.case("big-offset stream")
+                    res.dist("pass:offset-beyond-4GiB")
                 if probs:
                     found = res.violation("oracle:offset-beyond-4GiB", "; ".join(probs),
                                           f"# stream.obs: header, OHx@1, jumbo OB. events of 2^31-17, 2^31-17 and 2^20 data bytes (holes), then at offset "
